@@ -30,9 +30,12 @@ RULE = ("Part A: cases are drawn per (class, KMIP version) from vlib/codec_table
         "boundary value (C01's rule), counted once per (class, version, presence bitmap, length "
         "residues).  Part B: request histories of 1-15 requests over 1-15 connections against a "
         "copy of the standard store: batches of 1-4 items from pools of succeeding and failing "
-        "items of every operation, known General-Failure triggers, header variations (time "
+        "items of every operation, the General-Failure triggers stored under known/C13-*.json "
+        "(none left once all are repaired), header variations (time "
         "stamp, asynchronous indicator, UNDO, missing ids, batch count, small Maximum Response "
         "Size, unsupported versions), raw and mutated undecodable requests, failing certificates; "
+        "a deterministic grid runs every pool item, header variation, raw shape, failing "
+        "certificate and text-echo probe sequence once per version before the random part; "
         "a history is non-trivial when at least one of its responses has >=2 batch items, a failed "
         "item, or comes from a non-batch construction path; B_path:* counts responses per "
         "construction path (observed by a spy on process_request/build_error_response)")
